@@ -6,6 +6,7 @@ import (
 	"math/rand/v2"
 
 	"github.com/transparency-dev/witness/internal/persistence"
+	psql "github.com/transparency-dev/witness/internal/persistence/sql"
 	"github.com/transparency-dev/witness/internal/verif/kit/gen"
 	"github.com/transparency-dev/witness/internal/verif/kit/seams"
 	"google.golang.org/grpc/codes"
@@ -20,8 +21,11 @@ type HistOpts struct {
 	MinSteps  int
 	MaxSteps  int
 	FaultProb float64 // probability that a request runs with one injected storage fault
-	RawSQL    bool
-	Dir       string
+	// DriverFaults: SQL stores are opened through the wrapping driver and half of the injected faults are
+	// driver-level (query / row fetch / exec / commit / rollback) instead of interface-level.
+	DriverFaults bool
+	RawSQL       bool
+	Dir          string
 }
 
 // Hist is a running history.
@@ -32,6 +36,9 @@ type Hist struct {
 	Trace []string
 	// FaultFired is set by Do when the injected fault of the current step was reached.
 	FaultFired string
+	// ClosedWithError: the write handle's Close was made to fail in this step (a fault the witness may ignore).
+	ClosedWithError bool
+	inUpdate        bool // driver faults only strike inside the request, never the harness's own snapshot reads
 }
 
 // DrawStore picks a store kind.
@@ -71,6 +78,18 @@ func RunHistory(r *rand.Rand, o HistOpts, on func(h *Hist, s *Step, i int)) (*Hi
 	if err != nil {
 		return nil, err
 	}
+	var plan *seams.SQLPlan
+	if o.DriverFaults && st.DB != nil {
+		// reopen the same kind of store through the wrapping driver
+		dsn := ":memory:"
+		if kind == "sqlfile" {
+			dsn = st.Path
+		}
+		st.Close()
+		plan = &seams.SQLPlan{}
+		st.DB = seams.OpenVSQLite(dsn, plan)
+		st.P = psql.NewPersistence(st.DB)
+	}
 	schemes := o.Schemes
 	if schemes == nil {
 		schemes = [][]bool{{false}, {true}, {false, true}}
@@ -102,19 +121,45 @@ func RunHistory(r *rand.Rand, o HistOpts, on func(h *Hist, s *Step, i int)) (*Hi
 		v := rn.View(l, snap)
 		q := u.Next(r, l, v, rn.Sess[l.Idx])
 		h.FaultFired = ""
+		h.ClosedWithError = false
 		if o.FaultProb > 0 && r.Float64() < o.FaultProb {
-			op := []string{seams.OpWriteOps, seams.OpWGet, seams.OpWSet}[r.IntN(3)]
 			ferr := faultErrs[r.IntN(len(faultErrs))]
-			h.Hook.SetHook(func(gotOp, id string) error {
-				if gotOp == op {
-					h.FaultFired = op
-					return ferr
-				}
-				return nil
-			})
+			if plan != nil && r.IntN(2) == 0 {
+				// driver level: fail the k-th matching driver operation of this request
+				dop := []string{seams.SQLQuery, seams.SQLNext, seams.SQLExec, seams.SQLCommit, seams.SQLBegin}[r.IntN(5)]
+				armed := true
+				plan.SetHook(func(gotOp string, idx int, phase string) error {
+					if armed && gotOp == dop && phase == "before" && h.inUpdate {
+						armed = false
+						h.FaultFired = "driver:" + dop
+						return ferr
+					}
+					return nil
+				})
+			} else {
+				op := []string{seams.OpWriteOps, seams.OpWGet, seams.OpWSet, seams.OpWClose}[r.IntN(4)]
+				h.Hook.SetHook(func(gotOp, id string) error {
+					if gotOp == op {
+						h.FaultFired = op
+						return ferr
+					}
+					return nil
+				})
+			}
 		}
-		s := rn.Do(q, snap)
+		h.inUpdate = true
+		s := rn.DoWith(q, snap, func() { h.inUpdate = false })
+		h.inUpdate = false
 		h.Hook.SetHook(nil)
+		if plan != nil {
+			plan.SetHook(nil)
+		}
+		if h.FaultFired == seams.OpWClose {
+			// the witness ignores the result of Close: the request's outcome is whatever it would have been.
+			// Monitors still see the step (a refusal must change nothing, counters must be right).
+			h.ClosedWithError = true
+			h.FaultFired = ""
+		}
 		if h.FaultFired != "" {
 			// the snapshot inside Do was taken through the faulty store only for ops
 			// that are not hooked (reads), so it is valid; nothing to redo.
